@@ -56,7 +56,9 @@ def parse_lists(text):
 
 
 def run_shard(path):
-    cmd = ["timeout", "600", "coqc"] + COQ_LOADPATH + [path]
+    import shlex
+    cmd = ["bash", "-c", "ulimit -s unlimited 2>/dev/null; exec timeout 900 coqc "
+           + " ".join(shlex.quote(x) for x in COQ_LOADPATH + [path])]
     p = subprocess.run(cmd, stdout=subprocess.PIPE, stderr=subprocess.PIPE, text=True)
     if p.returncode != 0:
         raise CoqRunError("coqc failed on %s:\n%s" % (path, (p.stdout + p.stderr)[-3000:]))
